@@ -7,6 +7,10 @@ use std::collections::{BTreeMap, BTreeSet};
 use std::fmt::Write as _;
 use std::io::Write as _;
 
+use truc::generator::config::GeneratorConfig;
+use truc::generator::fragment::clone::CloneImplGenerator;
+use truc::generator::fragment::serde::SerdeImplGenerator;
+use truc::generator::fragment::FragmentGenerator;
 use truc::record::definition::builder::generic::variant as gvariant;
 use truc::record::definition::builder::generic::GenericRecordDefinitionBuilder;
 use truc::record::definition::builder::native::variant as nvariant;
@@ -633,6 +637,36 @@ impl<'a> Session<'a> {
         self.def_basic_inner(&def);
         self.def = Some(def);
     }
+    fn gen(&mut self, flags: &str) {
+        if self.dead { return; }
+        let Some(def) = self.def.take() else { return };
+        self.stats.requests += 1;
+        let mut custom: Vec<Box<dyn FragmentGenerator>> = vec![];
+        if flags.contains('c') { custom.push(Box::new(CloneImplGenerator)); }
+        if flags.contains('s') { custom.push(Box::new(SerdeImplGenerator)); }
+        let cfg = GeneratorConfig::default_with_custom_generators(custom);
+        let res = catch(|| truc::generator::generate(&def, &cfg));
+        let line = format!("gen {}", flags);
+        match res {
+            Err(e) => {
+                self.ora.hit("C13", format!("generate() panicked: {}", e));
+                self.out.emit(&line, "panic");
+            }
+            Ok(text) => match verif_harness::irdump::dump(&text) {
+                Ok(lines) => {
+                    // C19: a second generation in the same process must be byte-identical
+                    let again = truc::generator::generate(&def, &cfg);
+                    if again != text { self.ora.hit("C19", "two generations of the same definition differ in one process".into()); }
+                    self.out.emit(&line, &format!("ir {}", lines.join("\t")));
+                }
+                Err(e) => {
+                    self.ora.hit("C13", format!("generated module does not parse: {}", e));
+                    self.out.emit(&line, &format!("unparsable {}", e.replace('\n', " ")));
+                }
+            },
+        }
+        self.def = Some(def);
+    }
     fn def_replay(&mut self, st: Strat) {
         if self.dead { return; }
         let Some(def) = self.def.take() else { return };
@@ -927,6 +961,10 @@ fn random_history(rng: &mut Rng, out: &mut Out, stats: &mut Stats, hist: usize) 
     // capacity / Display are only meaningful for native layouts (generic strategies assign no offsets)
     if !generic_strats { s.def_basic(); }
     if let Some(st) = rp { s.def_replay(st); }
+    if !generic_strats && rng.chance(1, 3) {
+        let flags = *rng.pick(&["-", "c", "s", "cs"]);
+        s.gen(flags);
+    }
     s.finish();
 }
 
@@ -969,6 +1007,7 @@ fn exhaustive(thorough: bool, shard: usize, nshards: usize, out: &mut Out, stats
                                     s.close(s3);
                                     s.build();
                                     s.def_basic();
+                                    if ran % 16 == 1 { s.gen(["-", "c", "s", "cs"][(ran / 16) % 4]); }
                                     s.finish();
                                 }
                             }
@@ -1020,6 +1059,7 @@ fn file_histories(path: &str, out: &mut Out, stats: &mut Stats) {
             "build" => s.build(),
             "maxsize" => { s.def_basic(); }
             "align" | "display" => {}
+            "gen" => { s.gen(toks[1]); }
             "replay" => { s.def_replay(Strat::parse(toks[1]).expect("strategy")); }
             _ => s.query(line),
         }
